@@ -333,6 +333,10 @@ func inlineAt(p *ir.Program, s site, src, csrc []byte, iter int) ([]byte, error)
 			idEdits = append(idEdits, edit{coff(id.Pos()), coff(id.End()), fresh})
 			return true
 		}
+		if _, isLabel := obj.(*types.Label); isLabel {
+			idEdits = append(idEdits, edit{coff(id.Pos()), coff(id.End()), id.Name + sfx})
+			return true
+		}
 		free := false
 		switch {
 		case obj.Parent() == types.Universe, obj.Parent() == s.pk.Types.Scope():
@@ -358,6 +362,13 @@ func inlineAt(p *ir.Program, s site, src, csrc []byte, iter int) ([]byte, error)
 	if shadow != "" {
 		return nil, fmt.Errorf("%s", shadow)
 	}
+	// the labels the body declares
+	ast.Inspect(d.Body, func(n ast.Node) bool {
+		if ls, ok := n.(*ast.LabeledStmt); ok {
+			idEdits = append(idEdits, edit{coff(ls.Label.Pos()), coff(ls.Label.End()), ls.Label.Name + sfx})
+		}
+		return true
+	})
 	sort.Slice(idEdits, func(i, j int) bool { return idEdits[i].a < idEdits[j].a })
 	ctext := func(a, b int) string { // callee text with identifier renames applied
 		var sb strings.Builder
@@ -389,6 +400,26 @@ func inlineAt(p *ir.Program, s site, src, csrc []byte, iter int) ([]byte, error)
 	}
 	walk(d.Body)
 	sort.Slice(rets, func(i, j int) bool { return rets[i].Pos() < rets[j].Pos() })
+	// simple top-level defers (mu.Unlock() and the like): removed from the body and made explicitly at every exit
+	var deferred []string
+	for _, st := range d.Body.List {
+		if ds, ok := st.(*ast.DeferStmt); ok {
+			deferred = append([]string{ctext(coff(ds.Call.Pos()), coff(ds.Call.End()))}, deferred...)
+			var kept []edit
+			for _, e := range idEdits {
+				if e.a >= coff(ds.Pos()) && e.b <= coff(ds.End()) {
+					continue
+				}
+				kept = append(kept, e)
+			}
+			idEdits = append(kept, edit{coff(ds.Pos()), coff(ds.End()), ""})
+		}
+	}
+	sort.Slice(idEdits, func(i, j int) bool { return idEdits[i].a < idEdits[j].a })
+	atExit := ""
+	if len(deferred) > 0 {
+		atExit = strings.Join(deferred, "; ") + "; "
+	}
 	var body strings.Builder
 	cur := coff(d.Body.Lbrace) + 1
 	for _, r := range rets {
@@ -409,11 +440,11 @@ func inlineAt(p *ir.Program, s site, src, csrc []byte, iter int) ([]byte, error)
 		}
 		switch {
 		case nres == 0:
-			body.WriteString("break " + label)
+			body.WriteString(atExit + "break " + label)
 		case isDirectStmt:
-			body.WriteString(strings.TrimSuffix(strings.Repeat("_, ", nres), ", ") + " = " + vals + "; break " + label)
+			body.WriteString(strings.TrimSuffix(strings.Repeat("_, ", nres), ", ") + " = " + vals + "; " + atExit + "break " + label)
 		default:
-			body.WriteString(strings.Join(temps, ", ") + " = " + vals + "; break " + label)
+			body.WriteString(strings.Join(temps, ", ") + " = " + vals + "; " + atExit + "break " + label)
 		}
 		cur = coff(r.End())
 	}
@@ -436,7 +467,7 @@ func inlineAt(p *ir.Program, s site, src, csrc []byte, iter int) ([]byte, error)
 		out.WriteString(b + "\n")
 	}
 	out.WriteString(body.String())
-	out.WriteString("\nbreak " + label + "\n}\n")
+	out.WriteString("\n" + atExit + "break " + label + "\n}\n")
 	if !isDirectStmt {
 		out.WriteString(text(S.Pos(), s.call.Pos()) + strings.Join(temps, ", ") + text(s.call.End(), S.End()))
 	}
